@@ -137,6 +137,11 @@ def random_db(rng, n=None):
         depth = rng.randint(1, 4)
         oid = (1, 3, 6, 1, rng.choice([2, 4])) + tuple(rng.choice([0, 1, 2, 3, 127, 128, 300]) for _ in range(depth))
         db[oid] = rng.choice(ALL_VALUES)
+    if n and rng.random() < 0.15:
+        # the agent's own USM statistics are ordinary objects (SNMP-USER-BASED-SM-MIB usmStats):
+        # reading them must work like reading anything else, over every protocol version
+        for k in rng.sample(range(1, 7), rng.randint(1, 3)):
+            db[(1, 3, 6, 1, 6, 3, 15, 1, 1, k, 0)] = ["counter32", rng.randrange(2**32)]
     return sorted(db.items())
 
 
